@@ -37,6 +37,8 @@ COUNTERS = [
 
 
 def run(ctx):
+    ctx.rule("S1", "nothing altered between presentation and hand-over: every sync assignment to a registered source field has a "
+                   "guard that entails ~source.valid | source.ready (same instances as C04.S1)", min_sites=28)
     ctx.rule("S2", "a sink data field (payload/param/first/last) reaches a sync target only under a guard that entails "
                    "sink.valid, or ANDed with sink.valid, or together with sink.valid under the same guard", min_sites=20)
     ctx.rule("S3", "position/occupancy counters move only under guards that entail their handshake; flush and ready "
@@ -52,6 +54,14 @@ def run(ctx):
     ctx.rule("S10", "selection-based routing and compositions: mux/demux arm i connects endpoint i under sel == i; Gate connects "
                     "only when enabled; SyncFIFO depth 0/1/>=2 arms; Pipeline chains consecutive modules; Buffer order sink, "
                     "pipe_valid, pipe_ready, source; Cast maps all bits; BufferizeEndpoints directions", min_sites=20)
+
+    # ---- S1 (shared with C04): a token presented at the source is handed over as presented
+    from .c04 import S1_CLASSES
+    from ..rules_stream import s1_stability
+    for cls, alt, why in S1_CLASSES:
+        fx = fx_of(ctx, STREAM, cls)
+        n = s1_stability(ctx, "S1", fx, cls, alt=B.from_expr(alt) if alt else None, alt_reason=why)
+        ctx.need(n > 0, f"S1: {cls} has no registered source field any more (instance table stale)")
 
     # ---- S2
     for cls in S2_CLASSES:
